@@ -33,7 +33,7 @@ Record Rg (t : st) (v : vt) : Prop := mkRg {
   g_attr : attr_rel (attrspec t) (v_attr v);
   g_raok : RA_ok (v_attr v);
   g_u8 : u8eat t = None;
-  g_modes : modes t = modes0;
+  g_modes : modes t = modes0 (v_origin v);
   g_cset : cs_rel (cset t) (v_cs v);
   g_tabs : tabstops t = tabs0 (v_w v);
   g_replies : replies_of (events t) = map render_reply (v_replies v);
@@ -69,14 +69,23 @@ Proof.
 Qed.
 
 (* moving the cursor *)
+Lemma constrain_Rg t v x y : Rg t v -> constrain t x y 0 = (clamp x (v_w v), clampy v y).
+Proof. intros []. apply constrain_gen; assumption. Qed.
+
+Lemma Rg_org t v : Rg t v -> v_origin v = true -> v_top v <= v_y v <= v_bot v.
+Proof.
+  intros [] O. pose proof (i_org t g_inv0) as Ho. rewrite g_modes0, g_cur0, g_top0, g_bot0 in Ho. cbn [m_constrain modes0 snd] in Ho.
+  apply Ho. exact O.
+Qed.
+
 Lemma Rg_move t v x y p :
-  Rg t v -> Rg (set_term_cursor t x y) (with_xy v (clamp x (v_w v)) (clamp y (v_h v)) p).
+  Rg t v -> Rg (set_term_cursor t x y) (with_xy v (clamp x (v_w v)) (clampy v y) p).
 Proof.
   intros H. pose proof H as [].
   destruct (stc_frame t x y) as ((E1 & E2 & E3 & E4 & E5 & E6 & E7 & E8 & E9 & E10 & E11 & E12) & C & _).
-  constructor; cbn [with_xy v_w v_h v_g v_x v_y v_pend v_top v_bot v_attr v_sb v_sbknown v_replies v_cs]; try congruence; auto; hist.
+  constructor; cbn [with_xy v_w v_h v_g v_x v_y v_pend v_top v_bot v_attr v_sb v_sbknown v_replies v_cs v_origin]; try congruence; auto; hist.
   - eapply K_Inv. apply set_term_cursor_K. assumption.
-  - rewrite C. rewrite constrain_plain by (rewrite g_modes0; reflexivity). rewrite g_w0, g_h0. reflexivity.
+  - rewrite C. apply constrain_Rg. exact H.
 Qed.
 
 (* ---------- rows ---------- *)
@@ -128,7 +137,7 @@ Lemma Rg_upd t t' v g1 :
   tabstops t' = tabstops t -> sb t' = sb t -> events t' = events t -> grid_rel (term t') g1 -> Rg t' (with_g v g1).
 Proof.
   intros [] I' E1 E2 E3 E4 E5 E6 E7 E8 E9 E10 E11 E12 G.
-  constructor; cbn [with_g v_w v_h v_g v_x v_y v_pend v_top v_bot v_attr v_sb v_sbknown v_replies v_cs]; try congruence; auto; hist.
+  constructor; cbn [with_g v_w v_h v_g v_x v_y v_pend v_top v_bot v_attr v_sb v_sbknown v_replies v_cs v_origin]; try congruence; auto; hist.
 Qed.
 
 Lemma rowz_len t y : Inv t -> 0 <= y < height t -> zlen (rowz (term t) y) = width t.
@@ -149,9 +158,9 @@ Definition put_term (t : st) (ch : list Z) : list row :=
 Lemma set_char_eq t v ch :
   Rg t v -> set_char t ch (fst (cur t)) (snd (cur t)) = Ok (with_term t (put_term t ch)).
 Proof.
-  intros H. pose proof (Rg_bounds t v H) as B. pose proof H as [].
-  unfold set_char. rewrite constrain_plain by (rewrite g_modes0; reflexivity).
-  rewrite g_cur0. cbn [fst snd]. rewrite g_w0, g_h0. rewrite !clamp_in by lia.
+  intros H. pose proof (Rg_bounds t v H) as B. pose proof (Rg_org t v H) as Og. pose proof H as [].
+  unfold set_char. rewrite (constrain_Rg t v _ _ H).
+  rewrite g_cur0. cbn [fst snd]. rewrite clamp_in by lia. rewrite clampy_in by (auto; lia).
   assert (0 <= v_y v < zlen (term t)) as Hy by (rewrite (i_rows t g_inv0), g_h0; lia).
   destruct (rowz_rel (term t) (v_g v) (v_y v) g_grid0 Hy) as (N1 & _ & _).
   assert (0 <= v_y v) as Hy0 by lia. rewrite (get_index_nthz (term t) (v_y v) _ Hy0 N1). cbn [bind].
@@ -192,7 +201,7 @@ Proof. reflexivity. Qed.
 Lemma push_char_Rg t v ch x' y' p :
   Rg t v ->
   exists t', push_char t [ch] x' y' = Ok t' /\
-             Rg t' (with_xy (put_ref v ch) (clamp x' (v_w v)) (clamp y' (v_h v)) p) /\
+             Rg t' (with_xy (put_ref v ch) (clamp x' (v_w v)) (clampy v y') p) /\
              rotten t' = rotten t /\ inesc t' = inesc t /\ pstate t' = pstate t.
 Proof.
   intros H. pose proof H as [].
@@ -255,7 +264,7 @@ Proof.
   apply K_Inv in Kp.
   unfold scroll_up.
   destruct (rowz_rel (term t) (v_g v) (v_top v) g_grid0 ltac:(lia)) as (_ & _ & Rtop).
-  constructor; cbn [v_w v_h v_g v_x v_y v_pend v_top v_bot v_attr v_sb v_sbknown v_replies v_cs]; auto.
+  constructor; cbn [v_w v_h v_g v_x v_y v_pend v_top v_bot v_attr v_sb v_sbknown v_replies v_cs v_origin]; auto.
   2:{ intros Hk. apply andb_prop in Hk. destruct Hk as [Hk1 Hk2]. rewrite Hk2. apply Z.eqb_eq in Hk2.
       cbn [sb with_term]. subst t1. unfold sb_append. cbv zeta. cbn [sb with_sb]. fold (sb_push (sb t) (rowz (term t) (v_top v))).
       apply tail_max_push; [apply g_sb0; exact Hk1|]. rewrite Hk2 in Rtop. rewrite Hk2. exact Rtop. }
@@ -299,11 +308,13 @@ Qed.
 Lemma with_xy_id v : with_xy v (v_x v) (v_y v) (v_pend v) = v.
 Proof. destruct v. reflexivity. Qed.
 
+Ltac cy M Og := rewrite clampy_in in M by (first [intros O'; pose proof (Og O'); lia | lia]).
+
 Lemma Rg_stay t v : Rg t v -> Rg (set_term_cursor t (v_x v) (v_y v)) v.
 Proof.
-  intros H. pose proof (Rg_bounds t v H) as B.
+  intros H. pose proof (Rg_bounds t v H) as B. pose proof (Rg_org t v H) as Og.
   pose proof (Rg_move t v (v_x v) (v_y v) (v_pend v) H) as M.
-  rewrite !clamp_in in M by lia. rewrite with_xy_id in M. exact M.
+  rewrite !clamp_in in M by lia. cy M Og. rewrite with_xy_id in M. exact M.
 Qed.
 
 Lemma linefeed_Rg t v :
@@ -311,7 +322,7 @@ Lemma linefeed_Rg t v :
   exists t', linefeed t false = Ok t' /\ Rg t' (index v) /\
              rotten t' = rotten t /\ inesc t' = inesc t /\ pstate t' = pstate t.
 Proof.
-  intros H. pose proof (Rg_bounds t v H) as B. pose proof H as [].
+  intros H. pose proof (Rg_bounds t v H) as B. pose proof (Rg_org t v H) as Og. pose proof H as [].
   unfold linefeed, index. rewrite g_cur0, g_h0, g_bot0.
   destruct ((v_h v - 1 <=? v_y v) && (v_bot v <? v_h v - 1)) eqn:C1.
   - replace (v_y v =? v_bot v) with false by lia. replace (v_y v <? v_h v - 1) with false by lia.
@@ -327,7 +338,7 @@ Proof.
       eexists. split; [reflexivity|].
       destruct (stc_frame t (v_x v) (v_y v + 1)) as (_ & _ & Fr & Fi & Fp & _).
       split; [|auto].
-      pose proof (Rg_move t v (v_x v) (v_y v + 1) (v_pend v) H) as M. rewrite !clamp_in in M by lia. exact M.
+      pose proof (Rg_move t v (v_x v) (v_y v + 1) (v_pend v) H) as M. rewrite !clamp_in in M by lia. cy M Og. exact M.
 Qed.
 
 Lemma rlinefeed_Rg t v :
@@ -335,7 +346,7 @@ Lemma rlinefeed_Rg t v :
   exists t', linefeed t true = Ok t' /\ Rg t' (exec v CRi) /\
              rotten t' = rotten t /\ inesc t' = inesc t /\ pstate t' = pstate t.
 Proof.
-  intros H. pose proof (Rg_bounds t v H) as B. pose proof H as [].
+  intros H. pose proof (Rg_bounds t v H) as B. pose proof (Rg_org t v H) as Og. pose proof H as [].
   unfold linefeed. cbn [exec]. rewrite g_cur0, g_top0.
   destruct ((v_y v <=? 0) && (0 <? v_top v)) eqn:C1.
   - replace (v_y v =? v_top v) with false by lia. replace (0 <? v_y v) with false by lia.
@@ -351,7 +362,7 @@ Proof.
       eexists. split; [reflexivity|].
       destruct (stc_frame t (v_x v) (v_y v - 1)) as (_ & _ & Fr & Fi & Fp & _).
       split; [|auto].
-      pose proof (Rg_move t v (v_x v) (v_y v - 1) (v_pend v) H) as M. rewrite !clamp_in in M by lia. exact M.
+      pose proof (Rg_move t v (v_x v) (v_y v - 1) (v_pend v) H) as M. rewrite !clamp_in in M by lia. cy M Og. exact M.
 Qed.
 
 Lemma pc_lf s : m_display_ctrl (modes s) = false ->
@@ -422,7 +433,7 @@ Lemma sim_ch s v ch : R s v -> 32 <= ch <= 126 ->
   exists s', addbytes s (enc_cmd (CCh ch)) = Ok s' /\ R s' (exec v (CCh ch)).
 Proof.
   intros HR Hc. pose proof (R_idle s v HR) as [He Hp Hu Hd Hm]. destruct HR as (H0 & _).
-  pose proof (R0_bounds s v H0) as B. pose proof H0 as [].
+  pose proof (R0_bounds s v H0) as B. pose proof (R0_org s v H0) as Og. pose proof H0 as [].
   cbn [enc_cmd]. rewrite addbytes_1. rewrite addbyte_ascii by (auto; lia).
   rewrite process_char_plain by (auto; unfold plain_byte; lia). rewrite He.
   rewrite exec_ch. cbv zeta.
@@ -446,17 +457,17 @@ Proof.
         destruct (stc_frame t0 0 (v_y v)) as (_ & _ & Fr & Fi & Fp & _).
         rewrite scroll_up_xy. split; [|split; [reflexivity|rewrite Fr, Fi, Fp; repeat split; congruence]].
         pose proof (Rg_move t0 (scroll_up v) 0 (v_y v) false G0) as M.
-        change (v_w (scroll_up v)) with (v_w v) in M. change (v_h (scroll_up v)) with (v_h v) in M.
-        rewrite !clamp_in in M by lia. exact M.
+        change (v_w (scroll_up v)) with (v_w v) in M. change (clampy (scroll_up v) (v_y v)) with (clampy v (v_y v)) in M.
+        rewrite !clamp_in in M by lia. cy M Og. exact M.
       - cbn [bind]. destruct (v_y v <? v_h v - 1) eqn:C3.
         + eexists _, _. split; [reflexivity|].
           destruct (stc_frame s 0 (v_y v + 1)) as (_ & _ & Fr & Fi & Fp & _).
           split; [|split; [reflexivity|rewrite Fr, Fi, Fp; repeat split; congruence]].
-          pose proof (Rg_move s v 0 (v_y v + 1) false (R0_Rg s v H0)) as M. rewrite !clamp_in in M by lia. exact M.
+          pose proof (Rg_move s v 0 (v_y v + 1) false (R0_Rg s v H0)) as M. rewrite !clamp_in in M by lia. cy M Og. exact M.
         + eexists _, _. split; [reflexivity|].
           destruct (stc_frame s 0 (v_y v)) as (_ & _ & Fr & Fi & Fp & _).
           split; [|split; [reflexivity|rewrite Fr, Fi, Fp; repeat split; congruence]].
-          pose proof (Rg_move s v 0 (v_y v) false (R0_Rg s v H0)) as M. rewrite !clamp_in in M by lia. exact M. }
+          pose proof (Rg_move s v 0 (v_y v) false (R0_Rg s v H0)) as M. rewrite !clamp_in in M by lia. cy M Og. exact M. }
     rewrite E1. cbn [bind].
     assert (v_w v1 = v_w v /\ v_h v1 = v_h v /\ v_x v1 = 0 /\ 0 <= v_y v1 < v_h v) as (W1 & Hh1 & X1 & Y1).
     { pose proof (Rg_bounds t1 v1 H1) as B1. subst v1. unfold index, scroll_up in *. cbn [with_xy v_y v_bot v_h v_x v_w] in *.
@@ -470,7 +481,8 @@ Proof.
     split; [|split; [cbn; congruence|cbn; congruence]].
     apply Rg_R0.
     + apply Rg_rotten.
-      rewrite W1, Hh1 in H2. rewrite Ey in H2. rewrite (clamp_in (v_y v1)) in H2 by lia.
+      rewrite W1 in H2. rewrite Ey in H2. pose proof (Rg_org t1 v1 H1) as Og1.
+      rewrite (clampy_in v1 (v_y v1)) in H2 by (first [exact Og1 | lia]).
       unfold clamp in H2.
       destruct (0 =? v_w v - 1) eqn:C4.
       * replace (v_w v <=? 1) with true in H2 by lia. replace (v_w v - 1) with 0 in H2 by lia. exact H2.
@@ -488,14 +500,14 @@ Proof.
         as (t2 & E2 & H2 & Fr2 & Fi2 & Fp2).
       rewrite E2. eexists. split; [reflexivity|].
       split; [|split; [rewrite Fi2; exact He|rewrite Fp2; exact Hp]].
-      rewrite !clamp_in in H2 by lia.
+      rewrite !clamp_in in H2 by lia. cy H2 Og.
       apply Rg_R0; [exact H2|rewrite Fr2; reflexivity|].
       intros _. cbn [with_xy v_x v_w]. destruct (put_ref_fields v ch) as (Q & _). rewrite Q. lia.
     + replace (v_x v =? v_w v - 1) with false by lia. cbv zeta. cbn [bind].
       destruct (push_char_Rg s v ch (v_x v + 1) (v_y v) false (R0_Rg s v H0)) as (t2 & E2 & H2 & Fr2 & Fi2 & Fp2).
       rewrite E2. cbn [bind]. eexists. split; [reflexivity|].
       split; [|split; [cbn; congruence|cbn; congruence]].
-      rewrite !clamp_in in H2 by lia.
+      rewrite !clamp_in in H2 by lia. cy H2 Og.
       assert (width t2 = v_w v) as W2.
       { rewrite (g_w t2 _ H2). cbn [with_xy v_w]. destruct (put_ref_fields v ch) as (Q & _). exact Q. }
       rewrite W2. replace (v_w v <=? v_x v + 1) with false by lia.
